@@ -129,6 +129,14 @@ CHECKS["C11"] = dict(
     ref="6 (C11)", technique="Coq proof (two-path constructor models) for the modelled schemes + per-class stream evaluation and model correspondence",
     note="PARTIAL in breadth (models for generic, legacy openssl, ebuild, alpine, deb). Round trips of structured printers are checked on the implementation only. Known finding: deb colon inside upstream. Non-ASCII input is outside the models.")
 
+CHECKS["C18"] = dict(
+    text="Theorems over the code-shaped model of semantic_version's next_major/next_minor/next_patch and of the SemVer precedence extended with the build tie-break (the order the "
+         "semver-family classes really use, proved a total preorder whose equivalence is ==): for every version, v < next_patch <= next_minor <= next_major, every successor is "
+         "strictly greater, and the caret / tilde / pessimistic bounds (the version, and its next_major resp. next_minor) satisfy lower < upper with the version inside. "
+         "The model is compared with the four semver-family classes; gem (bump, release, ~>) and conan (upper_bound, bump at every numeric index) helpers are evaluated on the implementation.",
+    ref="6 (C18)", technique="Coq proof (case analysis in the key order of the modelled semver library) + helper evaluation on near-pair pools",
+    note="PARTIAL in breadth: gem and conan helpers have no Coq model yet. semantic_version 2.8.5 is modelled (third party), tied by correspondence. The model follows the code after the fix: commits (successor class, gem ~> lower bound).")
+
 PENDING = {}
 
 
